@@ -451,6 +451,23 @@ pub enum ByteMut {
     /// overwrite the u64 at byte offset with 2^k
     LenPrefix { offset: u32, k: u8 },
     AllOnes,
+    /// format-agnostic: if the message looks like `u64 n` followed by n equally sized elements,
+    /// drop the last k elements and fix the prefix (k = u32::MAX: make it empty)
+    VecShrink(u32),
+    /// same heuristic: duplicate the last element and fix the prefix
+    VecGrow,
+}
+
+/// (count, element size) if the bytes look like a bincode Vec of fixed-size elements
+pub fn uniform_vec_shape(b: &[u8]) -> Option<(usize, usize)> {
+    if b.len() < 8 {
+        return None;
+    }
+    let n = u64::from_le_bytes(b[..8].try_into().ok()?) as usize;
+    if n == 0 || n > b.len() || (b.len() - 8) % n != 0 {
+        return None;
+    }
+    Some((n, (b.len() - 8) / n))
 }
 
 pub fn apply_bytes(b: &[u8], m: &ByteMut) -> Vec<u8> {
@@ -477,6 +494,22 @@ pub fn apply_bytes(b: &[u8], m: &ByteMut) -> Vec<u8> {
             }
         }
         ByteMut::AllOnes => v.iter_mut().for_each(|x| *x = 0xff),
+        ByteMut::VecShrink(k) => {
+            if let Some((n, sz)) = uniform_vec_shape(b) {
+                let keep = if *k == u32::MAX { 0 } else { n.saturating_sub(*k as usize) };
+                v.truncate(8 + keep * sz);
+                v[..8].copy_from_slice(&(keep as u64).to_le_bytes());
+            }
+        }
+        ByteMut::VecGrow => {
+            if let Some((n, sz)) = uniform_vec_shape(b) {
+                if sz > 0 {
+                    let last = b[b.len() - sz..].to_vec();
+                    v.extend(last);
+                    v[..8].copy_from_slice(&((n + 1) as u64).to_le_bytes());
+                }
+            }
+        }
     }
     v
 }
